@@ -458,3 +458,74 @@ func nsPkgRule(w *World, r *Result, fnName string) int {
 	})
 	return n
 }
+
+// typeArgReaders: the module functions that read TypeArgs().At(i) directly.
+func typeArgReaders(w *World) []*FuncInfo {
+	var out []*FuncInfo
+	for _, fi := range sortedFuncs(w) {
+		if fi.Decl.Body != nil && reachesTypeArgs(w, fi, fi.Decl.Body, 0) {
+			out = append(out, fi)
+		}
+	}
+	return out
+}
+
+// genIDAccumulation (GEN-ID, second half): a function that builds a name from the type arguments keeps what it
+// built for the earlier arguments and for the arguments of a generic argument: inside its loop over the arguments
+// the name variable is only extended (`+=`, `x = x + …`), and the result of a nested call of a type-argument
+// reader is used (`Pair[Login, IdGroup]` and `Pair[IdUser, IdGroup]`, `Page[Opt[A]]` and `Page[Opt[B]]` must differ).
+func genIDAccumulation(w *World, r *Result) int {
+	readers := map[*types.Func]bool{}
+	for _, fi := range typeArgReaders(w) {
+		readers[fi.Obj] = true
+	}
+	n := 0
+	for _, fi := range typeArgReaders(w) {
+		info := fi.Pkg.TypesInfo
+		ast.Inspect(fi.Decl.Body, func(x ast.Node) bool {
+			var body *ast.BlockStmt
+			switch l := x.(type) {
+			case *ast.ForStmt:
+				body = l.Body
+			case *ast.RangeStmt:
+				body = l.Body
+			default:
+				return true
+			}
+			if !reachesTypeArgs(w, fi, body, 0) {
+				return true
+			}
+			ast.Inspect(body, func(y ast.Node) bool {
+				switch s := y.(type) {
+				case *ast.AssignStmt:
+					for i, l := range s.Lhs {
+						id := identOf(l)
+						if id == nil || i >= len(s.Rhs) {
+							continue
+						}
+						o := objOf(info, id)
+						v, ok := o.(*types.Var)
+						if !ok || !isStringType(v.Type()) || (v.Pos() >= body.Pos() && v.Pos() <= body.End()) {
+							continue // not a string accumulated across iterations
+						}
+						n++
+						extends := s.Tok.String() == "+=" || usesObj(info, s.Rhs[i], o)
+						r.cond(extends, "GEN-ID", fi.Name, es(l)+" "+s.Tok.String()+" … in the loop over the type arguments", w.Pos(s.Pos()),
+							"the name is extended, never restarted: every argument contributes",
+							"inside the loop over the type arguments the name is re-assigned (`=`) instead of extended: what the earlier arguments contributed is lost, so instantiations that differ only in an earlier argument (Pair[Login, IdGroup], Pair[IdUser, IdGroup]) get one name")
+					}
+				case *ast.ExprStmt:
+					if call, ok := s.X.(*ast.CallExpr); ok {
+						if fn := calleeOf(info, call); fn != nil && readers[fn] {
+							n++
+							r.bad("GEN-ID", fi.Name, "result of "+es(call)+" discarded", w.Pos(s.Pos()), "the name built for the arguments of a generic argument is thrown away (strings are values: the callee cannot extend the caller's): Page[Opt[A]] and Page[Opt[B]] get one name")
+						}
+					}
+				}
+				return true
+			})
+			return false
+		})
+	}
+	return n
+}
